@@ -39,8 +39,8 @@ theorem init_inv : Inv init := by
   refine ⟨?_, ?_, ?_⟩ <;> intro x hx <;> simp [init] at hx
 
 /-- `schedule` never lowers a generation (any configuration). -/
-theorem schedule_mono (cfg : Cfg) (w : World) (f : Nat) (v : Val) (e : Bool) (rg nb : Nat) (src : Src) (g : Nat) :
-    (w.fibers g).schedId ≤ ((schedule cfg w f v e rg nb src).fibers g).schedId := by
+theorem schedule_mono (cfg : Cfg) (w : World) (f : Nat) (v : Val) (e : Bool) (rg nb : Nat) (src : Src) (re : Nat) (g : Nat) :
+    (w.fibers g).schedId ≤ ((schedule cfg w f v e rg nb src re).fibers g).schedId := by
   unfold schedule
   by_cases hc : (cfg.canceledGuard && (w.fibers f).canceled) = true
   · simp [hc]
@@ -51,32 +51,33 @@ theorem schedule_mono (cfg : Cfg) (w : World) (f : Nat) (v : Val) (e : Bool) (rg
       by_cases hb : cfg.scheduleBumps = true <;> by_cases he : e = true <;> simp [hb, he]
     · simp [set_other _ _ _ _ hg]
 
-theorem schedule_now (cfg : Cfg) (w : World) (f : Nat) (v : Val) (e : Bool) (rg nb : Nat) (src : Src) :
-    (schedule cfg w f v e rg nb src).now = w.now := by
+theorem schedule_now (cfg : Cfg) (w : World) (f : Nat) (v : Val) (e : Bool) (rg nb : Nat) (src : Src) (re : Nat) :
+    (schedule cfg w f v e rg nb src re).now = w.now := by
   unfold schedule
   by_cases hc : (cfg.canceledGuard && (w.fibers f).canceled) = true <;> simp [hc]
 
-theorem schedule_log (cfg : Cfg) (w : World) (f : Nat) (v : Val) (e : Bool) (rg nb : Nat) (src : Src) :
-    (schedule cfg w f v e rg nb src).log = w.log := by
+theorem schedule_log (cfg : Cfg) (w : World) (f : Nat) (v : Val) (e : Bool) (rg nb : Nat) (src : Src) (re : Nat) :
+    (schedule cfg w f v e rg nb src re).log = w.log := by
   unfold schedule
   by_cases hc : (cfg.canceledGuard && (w.fibers f).canceled) = true <;> simp [hc]
 
-theorem schedule_timers (cfg : Cfg) (w : World) (f : Nat) (v : Val) (e : Bool) (rg nb : Nat) (src : Src) :
-    (schedule cfg w f v e rg nb src).timers = w.timers := by
+theorem schedule_timers (cfg : Cfg) (w : World) (f : Nat) (v : Val) (e : Bool) (rg nb : Nat) (src : Src) (re : Nat) :
+    (schedule cfg w f v e rg nb src re).timers = w.timers := by
   unfold schedule
   by_cases hc : (cfg.canceledGuard && (w.fibers f).canceled) = true <;> simp [hc]
 
-theorem schedule_bodies (cfg : Cfg) (w : World) (f : Nat) (v : Val) (e : Bool) (rg nb : Nat) (src : Src) :
-    (schedule cfg w f v e rg nb src).bodies = w.bodies := by
+theorem schedule_bodies (cfg : Cfg) (w : World) (f : Nat) (v : Val) (e : Bool) (rg nb : Nat) (src : Src) (re : Nat) :
+    (schedule cfg w f v e rg nb src re).bodies = w.bodies := by
   unfold schedule
   by_cases hc : (cfg.canceledGuard && (w.fibers f).canceled) = true <;> simp [hc]
 
 /-- Every schedule that is not swallowed by the CANCELED guard bumps the generation by exactly one. -/
-theorem schedule_bumps (cfg : Cfg) (hb : cfg.scheduleBumps = true) (w : World) (f : Nat) (v : Val) (e : Bool) (rg nb : Nat) (src : Src) :
-    schedule cfg w f v e rg nb src = w ∨
-    (((schedule cfg w f v e rg nb src).fibers f).schedId = (w.fibers f).schedId + 1 ∧
-     (schedule cfg w f v e rg nb src).queue = w.queue ++
-        [{ fiber := f, value := v, isErr := e, expected := (w.fibers f).schedId + 1, regGen := rg, notBefore := nb, src := src }]) := by
+theorem schedule_bumps (cfg : Cfg) (hb : cfg.scheduleBumps = true) (w : World) (f : Nat) (v : Val) (e : Bool) (rg nb : Nat) (src : Src) (re : Nat) :
+    schedule cfg w f v e rg nb src re = w ∨
+    (((schedule cfg w f v e rg nb src re).fibers f).schedId = (w.fibers f).schedId + 1 ∧
+     (schedule cfg w f v e rg nb src re).queue = w.queue ++
+        [{ fiber := f, value := v, isErr := e, expected := (w.fibers f).schedId + 1, regGen := rg, notBefore := nb, src := src,
+           regEpoch := re }]) := by
   unfold schedule
   by_cases hc : (cfg.canceledGuard && (w.fibers f).canceled) = true
   · left; simp [hc]
@@ -84,10 +85,10 @@ theorem schedule_bumps (cfg : Cfg) (hb : cfg.scheduleBumps = true) (w : World) (
 
 /-- scheduling on behalf of a LIVE registration keeps the invariant -/
 theorem schedule_inv (cfg : Cfg) (hb : cfg.scheduleBumps = true) {w : World} (h : Inv w) (f : Nat) (v : Val) (e : Bool)
-    (rg nb : Nat) (src : Src) (hrg : rg = (w.fibers f).schedId) (hnb : nb ≤ w.now)
+    (rg nb : Nat) (src : Src) {re : Nat} (hrg : rg = (w.fibers f).schedId) (hnb : nb ≤ w.now)
     (hsl : ∀ s d, src = .sleep s d → s + (d + 500) / 1000 ≤ nb) :
-    Inv (schedule cfg w f v e rg nb src) := by
-  rcases schedule_bumps cfg hb w f v e rg nb src with heq | ⟨hsid, hq⟩
+    Inv (schedule cfg w f v e rg nb src re) := by
+  rcases schedule_bumps cfg hb w f v e rg nb src re with heq | ⟨hsid, hq⟩
   · rw [heq]; exact h
   · refine ⟨?_, ?_, ?_⟩
     · intro t ht
